@@ -56,4 +56,12 @@ void stack_lines_reversed(std::vector<std::string> &out,
         out.insert(out.begin(), "  " + line);
     }
 }
+
+// R5.6: the same operand tested twice, the other one not at all
+bool both_fit(const SymEngine::Integer &a, const SymEngine::Integer &b)
+{
+    (void)b;
+    return SymEngine::mp_fits_slong_p(a.as_integer_class())
+           and SymEngine::mp_fits_slong_p(a.as_integer_class());
+}
 } // namespace verif_positive
